@@ -237,6 +237,74 @@ def sc_poll_vs_close(llc, ctx):
     return [('app1', app1), ('app2', app2)]
 
 
+def sc_bind_during_term(llc, ctx):
+    """application threads that bind / connect / listen on so far unbound sockets while terminate() runs"""
+    a, b, c = sock(llc, DLC), sock(llc, LDL), sock(llc, DLC)
+
+    def late_dlc():
+        ctx.term_started.wait()
+        if ctx.call('dlc.bind', lambda: a.bind(60))[0] == 'ret':         # an address the shutdown loop passes early
+            ctx.call('dlc.connect', lambda: a.connect(16))
+
+    def late_ldl():
+        ctx.term_started.wait()
+        if ctx.call('ldl.bind', lambda: b.bind('urn:nfc:sn:late'))[0] == 'ret':
+            ctx.call('ldl.recvfrom', b.recvfrom)
+
+    def late_lis():
+        ctx.term_started.wait()
+        if ctx.call('dlc.listen', lambda: c.listen(1))[0] == 'ret':       # implicit bind
+            ctx.call('dlc.accept', c.accept)
+    return [('late-dlc', late_dlc), ('late-ldl', late_ldl), ('late-lis', late_lis)]
+
+
+class AtTermRelease(S.DefaultChooser):
+    """default schedule, except that at the k-th release of llc.lock by the link thread inside terminate()
+    the application threads named late-* run (until they block or finish) before the link thread goes on"""
+
+    def __init__(self, k):
+        self.k, self.seen, self.pos, self.active = k, 0, 0, False
+        self.releases = 0
+
+    def attach(self, sch, llc, ctx):
+        self.sch, self.ctx, self.label = sch, ctx, llc.lock.label
+
+    def choose(self, step, cur, enabled):
+        log = self.sch.log
+        while self.pos < len(log):
+            e = log[self.pos]
+            self.pos += 1
+            if e[2] == 'rel' and e[3] == self.label and self.ctx.term_begin is not None and self.ctx.term_end is None \
+                    and self.sch.recs[e[1]].name == 'link':
+                self.releases += 1
+                if self.releases == self.k:
+                    self.active = True
+        if self.active:
+            late = [t for t in enabled if t.name.startswith('late-')]
+            if late:
+                return cur if cur in late else late[0]
+            self.active = False
+        return S.DefaultChooser.choose(self, step, cur, enabled)
+
+
+def bind_during_terminate(ck):
+    """a pre-emption at EVERY release of llc.lock inside terminate(): sockets bound there must be shut down with the
+    link or the bind must fail; no call may be left waiting"""
+    for cause in ('disc', 'none', 'ioerror:timedout', 'terminate'):
+        for role in ('initiator', 'target'):
+            case = {'scenario': 'bind-during-term', 'cause': cause, 'end_at': 2, 'role': role}
+            k = 1
+            while k <= 80:
+                ch = AtTermRelease(k)
+                out = run_case(case, ch)
+                bad = monitor(ck, case, out)
+                note_case(ck, case, out, ('term-release', k))
+                if ch.releases < k or bad:
+                    break           # there is no k-th release: all of them have been tried (or a failure is recorded)
+                k += 1
+            ck.count('term-lock-releases:%d' % (k - 1))
+
+
 class Snep(nfc.snep.server.SnepServer):
     pass
 
@@ -278,6 +346,9 @@ SCENARIOS = {
     'threads': dict(build=sc_two_threads, peer=dict(snl=False, cc=False), ends=(1, 3)),
     'close-vs-term': dict(build=sc_close_vs_term, peer=dict(dm=False), ends=(2, 4)),
     'closed-early': dict(build=sc_closed_early, ends=(1, 3)),
+    'bind-during-term': dict(build=sc_bind_during_term, ends=(2,)),
+    'dlc-frmr-received': dict(build=sc_dlc_connect, peer=dict(push={3: [pdu.FrameReject(32, 16)]}), ends=(5,)),
+    'dlc-frmr-sent': dict(build=sc_dlc_connect, peer=dict(push={3: [pdu.UnnumberedInformation(32, 16, b'zz')]}), ends=(6,)),
     'poll-vs-close': dict(build=sc_poll_vs_close, ends=(3, 5, 8)),
     'poll-vs-close-nodm': dict(build=sc_poll_vs_close, peer=dict(dm=False), ends=(3, 6)),
     'snep-idle': dict(build=sc_snep, ends=(0, 2)),
@@ -949,7 +1020,7 @@ def main():
             for ci, cause in enumerate(causes):
                 k = (ci + len(name)) % len(ends)
                 sel.append({'scenario': name, 'cause': cause, 'end_at': ends[k], 'role': roles[(ci + len(name)) % 2]})
-        extra = ck.rng.sample([p for p in plan if p not in sel], 40)
+        extra = ck.rng.sample([p for p in plan if p not in sel], 20)
         plan = sel + extra
     for case, schedule in SCHEDULE_CORPUS:
         out = run_case(case, S.Replay(schedule))
@@ -957,6 +1028,7 @@ def main():
         note_case(ck, case, out, ('corpus',))
         total += 1
     error_family(ck)
+    bind_during_terminate(ck)
     connect_returns(ck)          # starts with its own corpus of minimised past failures
     members = {'ioerror': [m for m in L.ERROR_FAMILY if m.startswith('ioerror')],
                'secerr': [m for m in L.ERROR_FAMILY if m.startswith('secerr')]}
